@@ -197,6 +197,53 @@ impl C09 {
         }
     }
 
+    /// squares as real blocks end: the last original share(s) are tail padding (namespace, info byte, then zeros) or a blob
+    /// share whose tail is zero padding.  Cutting 1..511 bytes off the honest payload removes only zero bytes: a decoder
+    /// that zero-fills a short last share would rebuild the square and accept a payload that is NOT the original data
+    /// square; the real one must reject every such cut (and a cut of a whole share).
+    fn gen_zero_tailed(&mut self, rng: &mut Rng, k: usize, out: &mut Emitter) {
+        let ver = pick_ver(rng);
+        let app = AppVersion::from_u64(ver).unwrap();
+        let (mut ods, _) = d_common::gen_ods(rng, k);
+        let n = ods.len();
+        let tail_pad = |_: &mut Rng| {
+            let mut s = Namespace::TAIL_PADDING.as_bytes().to_vec();
+            s.push(1);
+            s.resize(SHARE, 0);
+            s
+        };
+        let variant = rng.below(3);
+        match variant {
+            0 => ods[n - 1] = tail_pad(rng),
+            1 => {
+                // the last two shares are tail padding
+                ods[n - 1] = tail_pad(rng);
+                if n >= 2 {
+                    ods[n - 2] = tail_pad(rng);
+                }
+            }
+            _ => {
+                // a blob share whose last bytes are zero padding
+                let z = rng.usize(256, SHARE - NS_SIZE - 8);
+                for b in ods[n - 1].iter_mut().skip(SHARE - z) {
+                    *b = 0;
+                }
+            }
+        }
+        let Ok(eds) = ExtendedDataSquare::from_ods(ods.clone(), app) else { return };
+        let dah = DataAvailabilityHeader::from_eds(&eds);
+        let raw = shrex_codec::eds_encode(&eds);
+        out.op(decode_line(ver, true, &raw, &dah), "decode/zero-tailed-honest", true);
+        let mut cuts = vec![1usize, 2, 255, 511, 512];
+        for _ in 0..3 {
+            cuts.push(rng.usize(3, 510));
+        }
+        for cut in cuts {
+            let tag = if cut == 512 { "decode/zero-tailed-cut-whole-share" } else { "decode/zero-tailed-cut-bytes" };
+            out.op(decode_line(ver, false, &raw[..raw.len() - cut], &dah), tag, true);
+        }
+    }
+
     /// shapes: non-power-of-two widths, a single random blob of bytes, unsorted namespaces, parity namespace
     fn gen_shapes(&mut self, rng: &mut Rng, out: &mut Emitter) {
         let ver = pick_ver(rng);
@@ -266,6 +313,9 @@ impl Prop for C09 {
             let k = *rng.pick(&[1usize, 2, 4]);
             self.gen_share_v1(rng, k, out);
             self.gen_shapes(rng, out);
+            for zk in [1usize, 2, 4] {
+                self.gen_zero_tailed(rng, zk, out);
+            }
         }
         if thorough {
             // more shards than GF(2^8) leopard supports: 129 × 129 shares
